@@ -1,16 +1,3 @@
 #!/bin/sh
-# regression: the behaviour-preserving refactorings in seeded/benign*/all.diff must not raise any alarm
-# (applied to /repo with git apply, undone with git checkout -- . straight afterwards)
-cd /verif; bad=0
-for corpus in benign benign2 benign3 benign4 benign5; do
-  cd /repo && git apply --check /verif/seeded/$corpus/all.diff || { echo "$corpus patch no longer applies"; exit 2; }
-  git -C /repo apply /verif/seeded/$corpus/all.diff
-  cd /verif
-  for p in $(python3 -c "import json;print(' '.join(c['property_id'] for c in json.load(open('MANIFEST.json'))['checks']))"); do
-    M4LINT_SCRATCH_EVIDENCE=1 ./check $p quick > /tmp/p/${corpus}_$p.log 2>&1; r=$?
-    [ $r -ne 0 ] && { echo "FALSE ALARM $corpus $p rc=$r"; grep -E ": rule |ANALYSIS-BROKEN" /tmp/p/${corpus}_$p.log | grep -v configs= | cut -c1-250 | head -3; bad=1; }
-  done
-  git -C /repo checkout -- .
-done
-[ $bad -eq 0 ] && echo "benign corpora: silent on all checks"
-exit $bad
+# see devtools/benign.py
+exec python3 /verif/devtools/benign.py "$@"
